@@ -37,7 +37,7 @@ func normBody(c *ctx, body []ast.Stmt) string {
 }
 
 var (
-	reConv      = regexp.MustCompile(`^v = (int32|int64|float32|float64)\(tv\)$`)
+	reConv = regexp.MustCompile(`^v = (int32|int64|float32|float64)\(tv\)$`)
 	// checked narrowing: the value is converted and an error raised when it did not fit.  Signed and float arms
 	// compare the round trip in the arm's own type; unsigned arms must compare with the bound (a round trip
 	// through int32 is the identity on the bits of an unsigned value), so the form is tied to the arm's kind.
@@ -46,23 +46,23 @@ var (
 	// unsigned → int64: the converted value is negative exactly when the source was ≥ 2^63
 	reConvCheckU64 = regexp.MustCompile(`^v = (int64)\(tv\) ; if int64\(tv\) < 0 \{ err = newCoerceErr\((?:v|tv), "\w+"\) \}$`)
 	reFmtUint      = regexp.MustCompile(`^v = strconv\.FormatUint\((tv|uint64\(tv\)), 10\)$`)
-	reFailA     = regexp.MustCompile(`^err = newCoerceErr\((v|tv), ("\w+"|t\.N|t\.Name\(\))\) ; v = nil$`)
-	reFailB     = regexp.MustCompile(`^v = nil ; err = newCoerceErr\((v|tv), ("\w+"|t\.N|t\.Name\(\))\)$`)
-	reItoa      = regexp.MustCompile(`^v = strconv\.Itoa\((tv|int\(tv\))\)$`)
-	reFmtInt    = regexp.MustCompile(`^v = strconv\.FormatInt\((tv|int64\(tv\)), 10\)$`)
-	reFmtFloat  = regexp.MustCompile(`^v = strconv\.FormatFloat\((tv|float64\(tv\)), 'g', -1, (32|64)\)$`)
-	reParseInt  = regexp.MustCompile(`^var i int64 ; if i, err = strconv\.ParseInt\(tv, 10, (32|64)\); err == nil \{ v = (int32\(i\)|i) \}$`)
-	reParseFlt  = regexp.MustCompile(`^var f float64 ; if f, err = strconv\.ParseFloat\(tv, 64\); err == nil \{ v = (float32\(f\)|f) \}$`)
-	reParseBool = regexp.MustCompile(`^var b bool ; if b, err = strconv\.ParseBool\(tv\); err == nil \{ v = b \}$`)
-	reNeZero    = regexp.MustCompile(`^v = tv != 0(\.0)?$`)
-	reBoolStr   = regexp.MustCompile(`^if tv \{ v = trueStr \} else \{ v = falseStr \}$`)
-	reAssignTv  = regexp.MustCompile(`^v = tv$`)
-	reSymStr    = regexp.MustCompile(`^v = string\(tv\)$`)
-	reTimeF     = regexp.MustCompile(`^secs := int64\(tv\) ; (v|tt) = time\.Unix\(0, secs\*int64\(time\.Second\)\)\.In\(time\.UTC\)\.Add\(time\.Duration\(\(tv - float64\(secs\)\) \* float64\(time\.Second\)\)\)$`)
-	reTimeI     = regexp.MustCompile(`^(v|tt) = time\.Unix\(0, tv\*int64\(time\.Second\)\)\.In\(time\.UTC\)$`)
-	reTimeP     = regexp.MustCompile(`^var t time\.Time ; if t, err = time\.Parse\(time\.RFC3339Nano, tv\); err == nil \{ v = t \}$`)
-	reTimeP2    = regexp.MustCompile(`^tt, err = time\.Parse\(time\.RFC3339Nano, tv\)$`)
-	reTimeAs    = regexp.MustCompile(`^tt = tv$`)
+	reFailA        = regexp.MustCompile(`^err = newCoerceErr\((v|tv), ("\w+"|t\.N|t\.Name\(\))\) ; v = nil$`)
+	reFailB        = regexp.MustCompile(`^v = nil ; err = newCoerceErr\((v|tv), ("\w+"|t\.N|t\.Name\(\))\)$`)
+	reItoa         = regexp.MustCompile(`^v = strconv\.Itoa\((tv|int\(tv\))\)$`)
+	reFmtInt       = regexp.MustCompile(`^v = strconv\.FormatInt\((tv|int64\(tv\)), 10\)$`)
+	reFmtFloat     = regexp.MustCompile(`^v = strconv\.FormatFloat\((tv|float64\(tv\)), 'g', -1, (32|64)\)$`)
+	reParseInt     = regexp.MustCompile(`^var i int64 ; if i, err = strconv\.ParseInt\(tv, 10, (32|64)\); err == nil \{ v = (int32\(i\)|i) \}$`)
+	reParseFlt     = regexp.MustCompile(`^var f float64 ; if f, err = strconv\.ParseFloat\(tv, 64\); err == nil \{ v = (float32\(f\)|f) \}$`)
+	reParseBool    = regexp.MustCompile(`^var b bool ; if b, err = strconv\.ParseBool\(tv\); err == nil \{ v = b \}$`)
+	reNeZero       = regexp.MustCompile(`^v = tv != 0(\.0)?$`)
+	reBoolStr      = regexp.MustCompile(`^if tv \{ v = trueStr \} else \{ v = falseStr \}$`)
+	reAssignTv     = regexp.MustCompile(`^v = tv$`)
+	reSymStr       = regexp.MustCompile(`^v = string\(tv\)$`)
+	reTimeF        = regexp.MustCompile(`^secs := int64\(tv\) ; (v|tt) = time\.Unix\(0, secs\*int64\(time\.Second\)\)\.In\(time\.UTC\)\.Add\(time\.Duration\(\(tv - float64\(secs\)\) \* float64\(time\.Second\)\)\)$`)
+	reTimeI        = regexp.MustCompile(`^(v|tt) = time\.Unix\(0, tv\*int64\(time\.Second\)\)\.In\(time\.UTC\)$`)
+	reTimeP        = regexp.MustCompile(`^var t time\.Time ; if t, err = time\.Parse\(time\.RFC3339Nano, tv\); err == nil \{ v = t \}$`)
+	reTimeP2       = regexp.MustCompile(`^tt, err = time\.Parse\(time\.RFC3339Nano, tv\)$`)
+	reTimeAs       = regexp.MustCompile(`^tt = tv$`)
 )
 
 func actionOf(body string, pos string, kinds []string) string {
@@ -94,7 +94,9 @@ func actionOf(body string, pos string, kinds []string) string {
 		}
 		return ".convCheckedKeep .i64"
 	case reFmtUint.MatchString(body):
-		if !all(func(k string) bool { return k == "uint" || k == "uint8" || k == "uint16" || k == "uint32" || k == "uint64" }) {
+		if !all(func(k string) bool {
+			return k == "uint" || k == "uint8" || k == "uint16" || k == "uint32" || k == "uint64"
+		}) {
 			return unknown("coerce_arm_fmtuint_kind", pos)
 		}
 		return ".fmtUint"
